@@ -115,6 +115,7 @@ type CWorldCfg struct {
 }
 
 type CWorld struct {
+	wfails int
 	cfg   CWorldCfg
 	S     *vrt.Sched
 	C     *client.RemoteClient
